@@ -14,6 +14,18 @@ every distinct canonical state penalty(x) and error(x) are compared at every gri
 point, the zero-on-feasible / strictly-positive-on-violation / inf-on-
 ZeroDivisionError clauses are judged from the implementation's own values, and the
 evaluation is required to leave the canonical state untouched.
+
+Second family ("worlds"): several penalty objects that must keep iteration state of
+their own.  (a) nests whose levels are OUT OF STEP: inner penalties are iterated /
+cleared / stored before being wrapped (build modes `pre`) and operations are
+addressed to inner levels as well as to the outermost one - an operation reaches the
+addressed penalty and everything it decorates, each level counting from where it
+stands; (b) the penalty combinators coupler.and_/or_/not_ over 1, 2, 3 members (with
+and without k= / h= / ptype= settings, bare and decorated by a further penalty):
+operations are addressed to the combination, to the penalty decorating it and to every
+member; after every operation every object of the world is compared with the model
+(operating on one object must leave the others' own state alone), and at every
+distinct joint state every object is evaluated at every grid point.
 """
 import itertools, math
 from mc.runner import Tally
@@ -29,6 +41,26 @@ TYPES = list(R.TYPES)
 
 OPS = [['iter'], ['iter', 2], ['clear'], ['store', 'xa'], ['store', 'xb', 1]]
 OPNAMES = ['iter()', 'iter(2)', 'clear()', 'store(xa)', 'store(xb,1)']
+
+
+def at(o, l, *b):
+    """an operation addressed to level l of object o of a world (a plain op goes to object 0, level 0)"""
+    return ['@', o, l] + list(b)
+
+
+def op_parse(op):
+    """-> (object, level, [name, args...])"""
+    if op[0] == '@':
+        return op[1], op[2], list(op[3:])
+    return 0, 0, list(op)
+
+
+def op_text(op, roles=None):
+    o, l, b = op_parse(op)
+    t = '%s(%s)' % (b[0], ','.join(str(a) for a in b[1:]))
+    if roles is None:
+        return t if (o, l) == (0, 0) else t + '@%d.%d' % (o, l)
+    return t + roles[o][l]
 
 # store points.  S0: every condition finite, xa gives positive samples, xb negative ones.
 # S1: xb is singular for 1/x0 (the store must record +inf), xa gives mixed signs.
@@ -57,6 +89,11 @@ CONDS = {
     'x0+x1':   {'dim': 2, 'impl': _c_sum, 'args': None, 'kwds': None, 'ref': _r_sum},
 }
 CONDNAMES = ['x0-1', 'x0**2-4', '1/x0', 'x0+x1']
+# not_ calls the member's condition without the member's args / kwds (outside this statement): its members
+# use conditions that take none
+CONDS['x0-1 (plain)'] = {'dim': 1, 'impl': _r_x0m1, 'args': None, 'kwds': None, 'ref': _r_x0m1}
+CONDS['x0**2-4 (plain)'] = {'dim': 1, 'impl': _r_sq, 'args': None, 'kwds': None, 'ref': _r_sq}
+PLAINCONDS = ['x0-1 (plain)', 'x0**2-4 (plain)', '1/x0', 'x0+x1']
 
 # constraints for as_penalty: the condition is the distance the constraint moves x
 def _k_clamp(x): x = list(x); x[0] = min(x[0], 1.0); return x
@@ -83,27 +120,64 @@ def points(dim):
     return [list(p) for p in itertools.product(GRID, repeat=dim)]
 
 
+WORLD_X1 = [-2.0, 0.5, 2.0]      # worlds in two dimensions: the whole grid for x0, three values of x1 (x0+x1 takes all three signs)
+
+
+def world_points(dim):
+    return points(1) if dim == 1 else [[a, b] for a in GRID for b in WORLD_X1]
+
+
 # ------------------------------------------------------------------ building
 def cfg_dim(cfg):
     table = CONSTRAINTS if cfg['mode'] == 'as_penalty' else CONDS
     return max(table[l[1]]['dim'] for l in cfg['levels'])
 
 
-def build_ref(cfg):
+def cfg_base(cfg):
+    b = cfg.get('base')
+    if b is None:
+        b = 'base' if cfg['mode'] == 'decorate' else 'zero'
+    return base if b == 'base' else zero
+
+
+def cfg_pre(cfg):
+    """per level: the operations issued on that level right after it is built, before it is wrapped"""
+    pre = cfg.get('pre')
+    return [list(p) for p in pre] if pre else [[] for l in cfg['levels']]
+
+
+def build_ref(cfg, sp=None):
     table = CONSTRAINTS if cfg['mode'] == 'as_penalty' else CONDS
     levels = [R.Level(t, table[c]['ref'], k, h) for t, c, k, h in cfg['levels']]
-    return R.Stack(levels, base if cfg['mode'] == 'decorate' else zero)
+    ref = R.Stack(levels, cfg_base(cfg))
+    pre = cfg_pre(cfg)
+    for j in reversed(range(len(levels))):      # innermost first, as the real stack is built
+        for op in pre[j]:
+            ref.apply(op, sp, j)
+    return ref
 
 
-def build_impl(cfg):
+def real_op(p, b, sp):
+    """issue the operation b = [name, args...] on the real penalty p"""
+    if b[0] == 'iter':
+        return p.iter(*b[1:])
+    if b[0] == 'clear':
+        return p.clear()
+    if b[0] == 'store':
+        return p.store(list(sp[b[1]]), *b[2:])
+    raise ValueError(b)
+
+
+def build_impl(cfg, sp=None):
     """-> (list of the real penalty functions, outermost first; tags: id -> name for canon)"""
     import mystic.penalty as mp
     mode = cfg['mode']
     tags = {id(base): 'base', id(zero): 'zero'}
     funcs = []
     if mode == 'decorate':
-        f = base
-        for t, c, k, h in reversed(cfg['levels']):
+        f = cfg_base(cfg)
+        pre = cfg_pre(cfg)
+        for j, (t, c, k, h) in reversed(list(enumerate(cfg['levels']))):
             C = CONDS[c]
             kw = {}
             if k is not None: kw['k'] = k
@@ -113,6 +187,8 @@ def build_impl(cfg):
             tags[id(C['impl'])] = 'cond:' + c
             f = getattr(mp, t)(C['impl'], **kw)(f)
             funcs.insert(0, f)
+            for op in pre[j]:
+                real_op(f, op, sp)
     elif mode == 'with_penalty':
         import mystic.constraints as mc
         (t, c, k, h), = cfg['levels']
@@ -238,17 +314,34 @@ def _fl(v):
 class Run(object):
     """a freshly built implementation + model pair for one configuration"""
 
-    def __init__(self, cfg, rest0=None):
+    def __init__(self, cfg, rest0=None, built=None, role=None):
         self.cfg = cfg
-        self.funcs, self.tags = build_impl(cfg)
-        self.ref = build_ref(cfg)
+        self.role = role          # None: the single object of a nest; else 'combination' / 'member0' / ...
         self.sp = STORESETS[cfg['store']]
-        self.dim = cfg_dim(cfg)
+        if built is None:
+            self.funcs, self.tags = build_impl(cfg, self.sp)
+            self.ref = build_ref(cfg, self.sp)
+            self.dim = cfg_dim(cfg)
+            self.ptypes = [l[0] for l in cfg['levels']]
+            self.f0 = cfg_base(cfg)
+        else:
+            self.funcs, self.tags, self.ref, self.dim, self.ptypes = built
+            self.f0 = zero
+        self.mode = cfg['mode']
         self.D = len(self.funcs)
+        self.roles = ['' if j == 0 else '@L%d' % j for j in range(self.D)]
         self._cm = None
+        self.pts = None           # evaluation points (default: the whole grid in the object's dimension)
         # canonical form of everything but (n, store) right after construction; it does not depend on
-        # object identities, so the one taken from the first build of a configuration serves all rebuilds
-        self.rest0 = rest0 if rest0 is not None else [c[1] for c in self.canons()]
+        # object identities, so the one taken from the first build of a configuration serves all rebuilds.
+        # With build-time operations (`pre`) it is taken from a twin built without them.
+        if rest0 is not None:
+            self.rest0 = rest0
+        elif built is None and any(cfg_pre(cfg)):
+            twin = dict(cfg); twin['pre'] = None
+            self.rest0 = Run(twin).rest0
+        else:
+            self.rest0 = [c[1] for c in self.canons()]
 
     def canons(self):
         if self._cm is None:
@@ -260,31 +353,34 @@ class Run(object):
     def sig(self, clause, j, op=None):
         """categorical: clause, type of the level at fault, build mode, inner/outer level; the operation
         only for the clauses about iteration state (value clauses do not depend on the last op)"""
-        return {'clause': clause, 'ptype': self.cfg['levels'][j][0], 'inner_level': j > 0,
-                'mode': self.cfg['mode'], 'op': op if clause in self.STATE_CLAUSES else None}
+        sig = {'clause': clause, 'ptype': self.ptypes[j], 'inner_level': j > 0,
+               'mode': self.mode, 'op': op if clause in self.STATE_CLAUSES else None}
+        if self.role is not None:
+            sig['object'] = self.role.rstrip('0123456789')
+        return sig
 
-    def apply(self, op):
-        """apply op to the outermost real penalty and to the model; returns exception text or None"""
-        p = self.funcs[0]
+    def apply(self, op, level=0):
+        """issue op = [name, args...] on the real penalty of the given level (it reaches that level and what it
+        decorates) and on the model; returns exception text or None"""
         try:
-            if op[0] == 'iter':
-                r = p.iter(*op[1:])
-            elif op[0] == 'clear':
-                r = p.clear()
-            else:
-                r = p.store(list(self.sp[op[1]]), *op[2:])
+            real_op(self.funcs[level], op, self.sp)
         except Exception as e:   # an exception is an outcome to judge
             return '%s: %s' % (type(e).__name__, e)
-        self.ref.apply(op, self.sp)
+        self.ref.apply(op, self.sp, level)
         return None
 
     def key(self, canons=None):
         return tuple(c[0] for c in (canons or self.canons()))
 
     # -- cheap checks after an operation ----------------------------------
-    def check_state(self, ops, out):
-        """out: list collecting (sig, detail, extra-case); returns the canonical forms of the levels"""
-        opname = OPNAMES[OPS.index(ops[-1])] if ops else None
+    def check_state(self, ops, out, opname=None, cleared=None):
+        """out: list collecting (sig, detail, extra-case); returns the canonical forms of the levels.
+        cleared: the levels the last operation, a clear(), reached (default: all when the last op is a plain clear)"""
+        if opname is None:
+            opname = op_text(ops[-1]) if ops else None
+        if cleared is None:
+            cleared = range(self.D) if ops and ops[-1][0] == 'clear' else ()
+        who = '' if self.role is None else self.role + ' '
         cans = self.canons()
         for j, p in enumerate(self.funcs):
             L = self.ref.levels[j]
@@ -293,43 +389,46 @@ class Run(object):
                 y = p.stored()
                 yi = [p.stored(i) for i in range(L.ylen + 2)] + [p.stored(slice(0, 2))]
             except Exception as e:
-                out.append((self.sig('accessor_raised', j, opname), 'level %d iteration()/stored() raised %r' % (j, e), {}))
+                out.append((self.sig('accessor_raised', j, opname), '%slevel %d iteration()/stored() raised %r' % (who, j, e), {}))
                 continue
             if n != L.n:
                 out.append((self.sig('iteration', j, opname),
-                            'level %d (%s): iteration() = %r, model %r' % (j, L.ptype, n, L.n), {'level': j}))
+                            '%slevel %d (%s): iteration() = %r, model %r' % (who, j, self.ptypes[j], n, L.n), {'level': j}))
             if list(y) != L.stored():
                 out.append((self.sig('stored', j, opname),
-                            'level %d (%s): stored() = %r, model %r' % (j, L.ptype, y, L.stored()), {'level': j}))
+                            '%slevel %d (%s): stored() = %r, model %r' % (who, j, self.ptypes[j], y, L.stored()), {'level': j}))
             want = [L.stored(i) for i in range(L.ylen + 2)] + [L.stored()[0:2]]
             if yi != want:
                 out.append((self.sig('stored(i)', j, opname),
-                            'level %d (%s): [stored(i) for i<%d] + [stored(slice(0,2))] = %r, model %r' % (j, L.ptype, L.ylen + 2, yi, want), {'level': j}))
+                            '%slevel %d (%s): [stored(i) for i<%d] + [stored(slice(0,2))] = %r, model %r' % (who, j, self.ptypes[j], L.ylen + 2, yi, want), {'level': j}))
             mut, rest = cans[j]
             if rest != self.rest0[j]:
                 diff = [a for a, b in zip(rest[0] + rest[1], self.rest0[j][0] + self.rest0[j][1]) if a != b]
                 out.append((self.sig('rest_touched', j, opname),
-                            'level %d (%s): %s changed something other than (n, store): %r' % (j, L.ptype, opname, diff[:3]), {'level': j}))
-            if ops and ops[-1][0] == 'clear':
+                            '%slevel %d (%s): %s changed something other than (n, store): %r' % (who, j, self.ptypes[j], opname, diff[:3]), {'level': j}))
+            if j in cleared:
                 _n, _y = raw_state(p)
                 if _n != [0] or _y != []:
                     out.append((self.sig('clear_resets', j, opname),
-                                'level %d (%s): after clear() closure holds n=%r store=%r (expected [0], [])' % (j, L.ptype, _n, _y), {'level': j}))
+                                '%slevel %d (%s): after clear() closure holds n=%r store=%r (expected [0], [])' % (who, j, self.ptypes[j], _n, _y), {'level': j}))
         return cans
 
     # -- evaluation at every grid point ------------------------------------
-    def check_points(self, ops, out, H):
+    def check_points(self, ops, out, H, opname=None, purity=True):
         cfg = self.cfg
-        opname = OPNAMES[OPS.index(ops[-1])] if ops else None
-        pts = points(self.dim)
-        f0 = base if cfg['mode'] == 'decorate' else zero
-        before = self.canons()
+        if opname is None:
+            opname = op_text(ops[-1]) if ops else None
+        pts = self.pts if self.pts is not None else points(self.dim)
+        f0 = self.f0
+        who = '' if self.role is None else self.role + ': '
+        before = self.canons() if purity else None
         nz = 0
         mult = [L.multiplier() for L in self.ref.levels]
         for x in pts:
             got = []
             wants = self.ref.values_all(x)
             werrs = self.ref.errors_all(x)
+            wescs = self.ref.error_scales_all(x)
             badv = bade = None      # a wrong inner level makes every level around it wrong: blame the innermost
             for j, p in enumerate(self.funcs):
                 try:
@@ -349,26 +448,33 @@ class Run(object):
                 except Exception as ex:
                     out.append((self.sig('error_raised', j, opname), 'level %d error(%r) raised %r' % (j, x, ex), {'level': j, 'x': x}))
                     e = float('nan')
-                if not agree(e, werrs[j], werrs[j]):
+                if not agree(e, werrs[j], wescs[j]):
                     bade = (j, e, werrs[j])
             if badv is not None:
                 j, g, want = badv
                 out.append((self.sig('value', j, opname),
-                            'penalty(%r) of level %d.. = %r, documented expression gives %r  [levels %r, model state (n, stored) %r]'
-                            % (x, j, _fl(g), want, cfg['levels'][j:], [l.state() for l in self.ref.levels[j:]]),
+                            '%spenalty(%r) of level %d.. = %r, documented expression gives %r  [levels %r, model state (n, stored) %r]'
+                            % (who, x, j, _fl(g), want, cfg['levels'][j:], [l.state() for l in self.ref.levels[j:]]),
                             {'level': j, 'x': x}))
             if bade is not None:
                 j, e, we = bade
                 out.append((self.sig('error', j, opname),
-                            'error(%r) of level %d.. = %r, violation magnitude is %r  [levels %r]'
-                            % (x, j, _fl(e), we, cfg['levels'][j:]), {'level': j, 'x': x}))
+                            '%serror(%r) of level %d.. = %r, violation magnitude is %r  [levels %r]'
+                            % (who, x, j, _fl(e), we, cfg['levels'][j:]), {'level': j, 'x': x}))
             got.append(f0(x))
             # clauses judged from the implementation's own values, level by level
             for j in range(self.D):
                 L = self.ref.levels[j]
                 a, b = _fl(got[j]), _fl(got[j + 1])
-                sat = L.satisfied(x)
                 t = L.ptype
+                if L.combo:
+                    # zero exactly where all / any members are zero is C17's clause; here the value is compared
+                    # with the model (above), whose condition is made of the members' current values
+                    hk = self.ptypes[j] + '|combination: value and error compared with the model'
+                    H[hk] = H.get(hk, 0) + 1
+                    if a != b: nz += 1
+                    continue
+                sat = L.satisfied(x)
                 if sat is None:
                     hk = 'zde->inf'
                     if a != INF:
@@ -405,7 +511,7 @@ class Run(object):
                                         {'level': j, 'x': x}))
                 hk = t + '|' + hk
                 H[hk] = H.get(hk, 0) + 1
-        after = self.canons()
+        after = self.canons() if purity else None
         if after != before:
             j = [i for i in range(self.D) if after[i] != before[i]][0]
             out.append((self.sig('evaluation_not_pure', j, opname),
@@ -495,6 +601,232 @@ def shard(item):
         else:
             T.hist('clause_outcomes', k, v)
     T.sample({'cfg': _cfgtext(cfgs[0]), 'ops': 'all %d sequences of length <= %d' % (sum(len(OPS) ** i for i in range(depth + 1)), depth)}, limit=1)
+    return T
+
+
+# ------------------------------------------------------------------ worlds: several objects, addressed operations
+class World(object):
+    """the objects of one configuration, each a Run (real penalties + model):
+         {'kind': 'nest', 'cfg': cfg}                                   one nest; operations go to any of its levels
+         {'kind': 'combo', 'comb': 'and_'|'or_'|'not_', 'members': [cfg, ...], 'settings': {...}, 'wrap': level|None}
+                                                                        object 0 = the combination (levels: [wrapper,] combination),
+                                                                        objects 1.. = its members
+    """
+
+    def __init__(self, w, rest0=None):
+        self.w = w
+        rest0 = rest0 or {}
+        if w['kind'] == 'nest':
+            self.runs = [Run(w['cfg'], rest0.get(0))]
+            self.mode = w['cfg']['mode']
+            dim = self.runs[0].dim
+        else:
+            members = [Run(m, rest0.get(i + 1), role='member%d' % i) for i, m in enumerate(w['members'])]
+            for i, m in enumerate(members):
+                m.roles = ['@member%d' % i]
+            self.runs = [build_combo(w, members, rest0.get(0))] + members
+            self.mode = w['comb']
+            dim = max(r.dim for r in self.runs)
+        for r in self.runs:              # every object is evaluated at the same points
+            r.dim = dim
+            r.pts = world_points(dim)
+        self.rest0 = dict((i, r.rest0) for i, r in enumerate(self.runs))
+        self.roles = [r.roles for r in self.runs]
+
+    def apply(self, op):
+        o, l, b = op_parse(op)
+        return self.runs[o].apply(b, l)
+
+    def fresh(self):
+        return all(s == (0, ()) for r in self.runs for s in r.ref.state())
+
+    def key(self, cans):
+        return tuple(tuple(c[0] for c in cs) for cs in cans)
+
+    def skew(self):
+        """categorical: are the iteration counts of the world's levels / objects equal or not (non-vacuity histogram)"""
+        ns = [[L.n for L in r.ref.levels] for r in self.runs]
+        kind = 'nest levels' if self.w['kind'] == 'nest' else 'combination and members'
+        eq = len(set(n for l in ns for n in l)) == 1
+        return '%s: %s' % (kind, 'iteration counts equal' if eq else 'iteration counts differ')
+
+    def unjudged(self):
+        """the statement does not say under which iteration an inner Lagrange level files a sample that reaches it
+        through an outer Lagrange level standing at another iteration: such a history is not judged from there on"""
+        return any(r.ref.store_handed_down for r in self.runs)
+
+    def check_state(self, ops, out):
+        """every object of the world after the last operation, whichever object it was addressed to"""
+        opname, cleared = None, {}
+        if ops:
+            o, l, b = op_parse(ops[-1])
+            opname = op_text(ops[-1], self.roles)
+            if b[0] == 'clear':
+                cleared[o] = range(l, self.runs[o].D)
+        return [r.check_state(ops, out, opname, cleared.get(i, ())) for i, r in enumerate(self.runs)]
+
+    def check_points(self, ops, out, H):
+        opname = op_text(ops[-1], self.roles) if ops else None
+        before = [r.key() for r in self.runs]
+        nz = ne = 0
+        member_wrong = False
+        for r in self.runs[1:] + self.runs[:1]:         # members first
+            mine = []
+            a, b = r.check_points(ops, mine, H, opname, purity=False)     # purity is judged below, over all objects
+            nz += a; ne += b
+            if r.role == 'combination' and member_wrong:
+                # the combination's condition is made of the members' values: a wrong member is blamed once, as the member
+                keep = [m for m in mine if not (m[0]['clause'] in ('value', 'error') and m[0]['ptype'] in ('and_', 'or_'))]
+                if len(keep) < len(mine):
+                    H['combination not judged where a member is wrong'] = H.get('combination not judged where a member is wrong', 0) + len(mine) - len(keep)
+                mine = keep
+            elif any(m[0]['clause'] in ('value', 'error', 'eval_raised', 'error_raised') for m in mine):
+                member_wrong = True
+            out.extend(mine)
+        after = [r.key() for r in self.runs]
+        for i, r in enumerate(self.runs):
+            if after[i] != before[i]:       # evaluating an object moved its own or another one's state
+                j = [k for k in range(r.D) if after[i][k] != before[i][k]][0]
+                out.append((r.sig('evaluation_not_pure', j, opname),
+                            'evaluating penalty/error of the objects of the world changed the closure state of %slevel %d: %r -> %r'
+                            % (r.role + ' ' if r.role else '', j, before[i][j], after[i][j]), {'level': j}))
+        return nz, ne
+
+
+def build_combo(w, members, rest0=None):
+    """the real and_/or_/not_ of the members' real penalties (+ the penalty decorating it) and its model -> Run"""
+    import mystic.penalty as mp
+    import mystic.coupler as cp
+    kind = w['comb']
+    st = dict(w.get('settings') or {})
+    kw = dict(st)
+    if kw.get('ptype'):
+        kw['ptype'] = getattr(mp, kw['ptype'])
+    if kind == 'not_':
+        c = cp.not_(members[0].funcs[0], **kw)
+        lev = R.not_level(members[0].ref.levels[0], st)
+    else:
+        c = getattr(cp, kind)(*[m.funcs[0] for m in members], **kw)
+        lev = R.ComboLevel(kind, [m.ref for m in members], st)
+    funcs, levels = [c], [lev]
+    desc = [[kind, 'ptype=%s of %d member(s)' % (lev.ptype, len(members)), lev.k, lev.h]]
+    roles = ['@combination']
+    tags = {id(zero): 'zero', id(c): 'combination'}
+    dim = 1
+    wrap = w.get('wrap')
+    if wrap:
+        t, cn, k, h = wrap
+        C = CONDS[cn]
+        kwo = {'k': k, 'h': h}
+        if C['args'] is not None: kwo['args'] = C['args']
+        if C['kwds'] is not None: kwo['kwds'] = C['kwds']
+        outer = getattr(mp, t)(C['impl'], **kwo)(c)
+        tags[id(C['impl'])] = 'cond:' + cn
+        tags[id(outer)] = 'wrapper'
+        funcs.insert(0, outer); levels.insert(0, R.Level(t, C['ref'], k, h)); desc.insert(0, list(wrap)); roles.insert(0, '@wrapper')
+        dim = C['dim']
+    cfg = {'mode': kind, 'store': w.get('store', 'S0'), 'levels': desc}
+    run = Run(cfg, rest0, built=(funcs, tags, R.Stack(levels, zero), dim, [d[0] for d in desc]), role='combination')
+    run.roles = roles
+    return run
+
+
+def explore_world(w, alphabet, depth, T, H):
+    """as explore_config, over the objects of a world: every sequence of addressed operations of length
+    0..depth on freshly built objects; after the last operation EVERY object is compared with the model;
+    point evaluation of every object once per distinct joint canonical state"""
+    seen, dead, rest0 = set(), set(), None
+    for n in range(depth + 1):
+        for seq in itertools.product(range(len(alphabet)), repeat=n):
+            if n and seq[:-1] in dead:
+                continue
+            W = World(w, rest0)
+            ops = [alphabet[k] for k in seq]
+            out = []
+            T.count('traces')
+            T.count('transitions', n)
+            if n == 0:
+                rest0 = W.rest0
+                for r in W.runs:
+                    if r.role != 'combination':
+                        check_attributes(r, out)
+            exc = None
+            for op in ops:
+                exc = W.apply(op)
+                if exc is not None:
+                    break
+            if exc is not None:
+                dead.add(seq)
+                o, l, b = op_parse(ops[-1])
+                name = op_text(ops[-1], W.roles)
+                out.append((W.runs[o].sig('op_raised', l, name), '%s raised %s' % (name, exc), {}))
+                _wflush(T, W, ops, out)
+                continue
+            if W.unjudged():
+                dead.add(seq)
+                hk = '_skew:not judged (nor extended): store(x) reached a Lagrange level through another one standing at a different iteration'
+                H[hk] = H.get(hk, 0) + 1
+                T.count('traces', -1); T.count('transitions', -n); T.count('sequences_not_judged')
+                continue
+            key = W.key(W.check_state(ops, out))
+            if key not in seen:
+                seen.add(key)
+                nz, ne = W.check_points(ops, out, H)
+                T.count('evaluations', 2 * ne)
+                T.count('states')
+                if nz and not W.fresh():
+                    T.count('nontrivial_states')
+                    T.nontriv((_wtext(w), key))
+                skew = W.skew()
+                if skew:
+                    H['_skew:' + skew] = H.get('_skew:' + skew, 0) + 1
+            _wflush(T, W, ops, out)
+    H['states/config:%d' % min(len(seen), 99)] = H.get('states/config:%d' % min(len(seen), 99), 0) + 1
+
+
+def _wflush(T, W, ops, out):
+    for sig, detail, extra in out:
+        case = {'world': W.w, 'ops': ops}
+        case.update(extra)
+        T.violate(sig, case, detail + '  [after ops %s; %s]' % ([op_text(o, W.roles) for o in ops], _wtext(W.w)))
+
+
+def _lvtext(cfg):
+    pre = cfg_pre(cfg)
+    return ' > '.join('%s(%s,k=%s,h=%s)%s' % (tuple(l) + ('' if not pre[j] else ' then ' + '.'.join(op_text(o) for o in pre[j]),))
+                      for j, l in enumerate(cfg['levels']))
+
+
+def _wtext(w):
+    if w['kind'] == 'nest':
+        return 'nest/%s %s' % (w['cfg']['store'], _lvtext(w['cfg']))
+    t = '%s(%s%s)' % (w['comb'], ', '.join('[' + _lvtext(m) + ']' for m in w['members']),
+                      ''.join(', %s=%s' % kv for kv in sorted((w.get('settings') or {}).items())))
+    if w.get('wrap'):
+        t = '%s(%s,k=%s,h=%s) > ' % tuple(w['wrap']) + t
+    return t
+
+
+def shard_world(item):
+    ws, depth = item
+    T = Tally()
+    H = {}
+    for w, alphabet in ws:
+        explore_world(w, alphabet, depth, T, H)
+        if w['kind'] == 'nest':
+            T.hist('configs', 'world:nest depth%d, levels out of step at build / ops on inner levels' % len(w['cfg']['levels']))
+        else:
+            T.hist('configs', 'world:%s of %d member(s)%s' % (w['comb'], len(w['members']), ', decorated' if w.get('wrap') else ''))
+    for k, v in H.items():
+        if k.startswith('states/config:'):
+            T.hist('distinct_states_per_world', k.split(':')[1], v)
+        elif k.startswith('_skew:'):
+            T.hist('world_states', k[6:], v)
+        else:
+            T.hist('clause_outcomes', k, v)
+    w, alphabet = ws[0]
+    T.sample({'world': _wtext(w), 'ops': 'all %d sequences of length <= %d over %s'
+              % (sum(len(alphabet) ** i for i in range(depth + 1)), depth, [op_text(o, World(w).roles) for o in alphabet])}, limit=1)
     return T
 
 
@@ -637,6 +969,104 @@ def configs(thorough):
     return out
 
 
+# ---- worlds
+I, I2, I3, CL = ['iter'], ['iter', 2], ['iter', 3], ['clear']
+SA, SB = ['store', 'xa'], ['store', 'xb', 1]
+# operations on a 2-level nest: the outermost level (plain) and level 1
+A_NEST2 = [I, I2, CL, SA, SB, at(0, 1, *I), at(0, 1, *I3), at(0, 1, *CL), at(0, 1, *SA)]
+A_NEST3 = [I, I2, CL, SA, at(0, 1, *I), at(0, 1, *I3), at(0, 1, *CL), at(0, 2, *I), at(0, 2, *CL)]
+# operations on a combination (object 0) and its members (objects 1..)
+A_COMBO1 = [I, I2, CL, SA, at(1, 0, *I), at(1, 0, *I3), at(1, 0, *CL), at(1, 0, *SA)]
+A_COMBO2 = [I, I2, CL, SA, at(1, 0, *I), at(1, 0, *CL), at(1, 0, *SA), at(2, 0, *I), at(2, 0, *I3)]
+A_COMBO3 = [I, I2, CL, at(1, 0, *I), at(2, 0, *I), at(2, 0, *CL), at(3, 0, *I), at(3, 0, *I3)]
+# a penalty decorating a combination: wrapper (level 0), combination (level 1), member
+A_WRAP = [I, I2, CL, SA, at(0, 1, *I), at(0, 1, *CL), at(1, 0, *I), at(1, 0, *CL)]
+
+PRE_INNER = [[], [I], [I, I], [I3]]                       # how the inner penalty was used before being wrapped
+PRE3 = [([I], []), ([], [I, I]), ([I3], [I])]             # (middle, innermost) of a 3-level nest
+KH_SKEW = [(20, 5), (3, 2), (1, 5)]                       # per level: different growth factors outside / inside
+SETTINGS = [{}, {'k': 10, 'h': 2}, {'k': 3}, {'h': 2}, {'ptype': 'quadratic_inequality', 'k': 2, 'h': 3},
+            {'k': None}, {'ptype': 'quadratic_equality'}]
+NOT_SETTINGS = [{}, {'k': 10, 'h': 2}, {'ptype': 'linear_inequality', 'k': 2}, {'ptype': 'quadratic_equality', 'h': 2}]
+MEMBER_KH = [(3, 2), (20, 5), (1, 1)]
+
+
+def _member(t, c, kh, pre=None):
+    return {'mode': 'decorate', 'store': 'S0', 'base': 'zero', 'levels': [[t, c] + list(kh)], 'pre': [list(pre or [])]}
+
+
+def worlds(thorough):
+    """-> {family: [(world, alphabet)]}.  Every penalty type appears at every level of the nests and as a member at
+    every position of the combinations; conditions rotate with the type indices"""
+    out = {}
+    nt, nc = len(TYPES), len(CONDNAMES)
+    idx = list(range(nt))
+    # (a) 2-level nests, every ordered pair of types, the inner one used before it is wrapped
+    fam = out['nest2'] = []
+    for i1, i2 in itertools.product(idx, repeat=2):
+        t1, t2 = TYPES[i1], TYPES[i2]
+        c1, c2 = CONDNAMES[(i1 + i2) % nc], CONDNAMES[(2 * i1 + i2 + 1) % nc]
+        pres = PRE_INNER + ([[SA, I]] if t2 in R.LAGRANGE else [])
+        for pre in pres:
+            cfg = {'mode': 'decorate', 'store': 'S0', 'levels': [[t1, c1] + list(KH_SKEW[0]), [t2, c2] + list(KH_SKEW[1])],
+                   'pre': [[], pre]}
+            fam.append(({'kind': 'nest', 'cfg': cfg}, A_NEST2))
+    # (b) 3-level nests: every ordered pair as (outer, middle) and as (middle, inner), the third type rotating
+    fam = out['nest3'] = []
+    triples = [(a, b, (a + b) % nt) for a, b in itertools.product(idx, repeat=2)]
+    triples += [((b + 2 * c + 1) % nt, b, c) for b, c in itertools.product(idx, repeat=2)]
+    if thorough:
+        triples = list(itertools.product(idx, repeat=3))
+    for n, tr in enumerate(triples):
+        cs = [CONDNAMES[(tr[0] + n) % nc], CONDNAMES[(tr[1] + 2 * n + 1) % nc], CONDNAMES[(tr[2] + 3 * n + 2) % nc]]
+        for pm, pi in (PRE3 if thorough else PRE3[:2]):
+            cfg = {'mode': 'decorate', 'store': 'S0', 'levels': [[TYPES[tr[j]], cs[j]] + list(KH_SKEW[j]) for j in range(3)],
+                   'pre': [[], pm, pi]}
+            fam.append(({'kind': 'nest', 'cfg': cfg}, A_NEST3))
+    # (c) and_ / or_ of one member: every type x every setting x member fresh / used before
+    fam = out['combo1'] = []
+    for kind in ('and_', 'or_'):
+        for i1 in idx:
+            for si, st in enumerate(SETTINGS if thorough else SETTINGS[:5]):
+                for pre in ([], [I]):
+                    m = _member(TYPES[i1], CONDNAMES[(i1 + si) % nc], MEMBER_KH[0], pre)
+                    fam.append(({'kind': 'combo', 'comb': kind, 'members': [m], 'settings': st, 'wrap': None}, A_COMBO1))
+    # (d) not_
+    fam = out['not_'] = []
+    for i1 in idx:
+        for si, st in enumerate(NOT_SETTINGS if thorough else NOT_SETTINGS[:3]):
+            for pre in ([], [I]):
+                m = _member(TYPES[i1], PLAINCONDS[(i1 + si) % nc], MEMBER_KH[0], pre)
+                fam.append(({'kind': 'combo', 'comb': 'not_', 'members': [m], 'settings': st, 'wrap': None}, A_COMBO1))
+    # (e) two members: every ordered pair of types, settings rotating
+    fam = out['combo2'] = []
+    for kind in ('and_', 'or_'):
+        for i1, i2 in itertools.product(idx, repeat=2):
+            sts = SETTINGS[:5] if thorough else [SETTINGS[(i1 + 2 * i2 + (kind == 'or_')) % 5]]
+            for st in sts:
+                ms = [_member(TYPES[i1], CONDNAMES[(i1 + i2) % nc], MEMBER_KH[0]),
+                      _member(TYPES[i2], CONDNAMES[(i1 + 2 * i2 + 1) % nc], MEMBER_KH[1], [I] if (i1 + i2) % 2 else [])]
+                fam.append(({'kind': 'combo', 'comb': kind, 'members': ms, 'settings': st, 'wrap': None}, A_COMBO2))
+    # (f) three members
+    fam = out['combo3'] = []
+    for kind in ('and_', 'or_'):
+        for i1, i2 in itertools.product(idx, repeat=2):
+            i3 = (i1 + 2 * i2 + 3) % nt
+            st = SETTINGS[(i1 + i2 + (kind == 'or_')) % 2]          # no settings / k and h
+            ms = [_member(TYPES[i], CONDNAMES[(i + j + i1) % nc], MEMBER_KH[j]) for j, i in enumerate((i1, i2, i3))]
+            fam.append(({'kind': 'combo', 'comb': kind, 'members': ms, 'settings': st, 'wrap': None}, A_COMBO3))
+    # (g) a penalty of every type decorating a combination of one member of every type
+    fam = out['wrapped'] = []
+    for kind in ('and_', 'or_'):
+        for i0, i1 in itertools.product(idx, repeat=2):
+            if not thorough and (i0 + i1 + (kind == 'or_')) % 2:
+                continue
+            m = _member(TYPES[i1], CONDNAMES[(i0 + i1) % nc], MEMBER_KH[0], [I] if i0 % 2 else [])
+            wrap = [TYPES[i0], CONDNAMES[(i0 + 2 * i1 + 1) % nc], 20, 5]
+            fam.append(({'kind': 'combo', 'comb': kind, 'members': [m], 'settings': SETTINGS[(i0 + i1) % 2], 'wrap': wrap}, A_WRAP))
+    return out
+
+
 def run(ctx):
     depth = 5 if ctx.thorough else 4
     cfgs = configs(ctx.thorough)
@@ -644,13 +1074,22 @@ def run(ctx):
     # contiguous chunks, simplest configurations first: the first case kept per signature is the smallest
     items = [('cfg', (cfgs[i:i + chunk], depth)) for i in range(0, len(cfgs), chunk)]
     items += [('misc', (t, ctx.thorough)) for t in TYPES]
+    wdepth = 4 if ctx.thorough else 3
+    wfam = worlds(ctx.thorough)
+    wchunk = 4 if ctx.thorough else 10
+    wby = {}
+    for name in sorted(wfam):
+        ws = wfam[name]
+        items += [('world', (ws[i:i + wchunk], wdepth)) for i in range(0, len(ws), wchunk)]
+        wby[name] = {'worlds': len(ws), 'operations': [op_text(o, World(ws[0][0]).roles) for o in ws[0][1]],
+                     'sequences_per_world': sum(len(ws[0][1]) ** i for i in range(wdepth + 1))}
     by = {}
     for c in cfgs:
         k = 'depth%d/%s/%s' % (len(c['levels']), c['mode'], c['store'])
         by[k] = by.get(k, 0) + 1
     ctx.bounds = {
         'types': TYPES, 'conditions': CONDNAMES, 'as_penalty_constraints': CONSNAMES, 'k': KS + ['default'], 'h': HS + ['default'],
-        'grid': GRID, 'points': 'grid^dim, dim = 2 when a level uses x0+x1 (or tie), else 1',
+        'grid': GRID, 'points': 'grid^dim, dim = 2 when a level uses x0+x1 (or tie), else 1; worlds in two dimensions: grid x %r' % (WORLD_X1,),
         'ops': OPNAMES, 'op_sequence_length': depth, 'store_points': STORESETS,
         'configurations': by, 'configurations_total': len(cfgs),
         'depth1': 'full product 9 types x 4 conditions x 3 k x 2 h (+ defaults), three build modes',
@@ -659,6 +1098,16 @@ def run(ctx):
         'depth3': 'all 729 ordered type triples x condition triples %r with (k,h) %r%s'
                   % (ROT3 if ctx.thorough else ROT3[:2], KH3[0], '; + %r on the first condition triple' % (KH3[1],) if ctx.thorough else ''),
         'additive': '81 type pairs x 16 condition pairs x %d pairs of op prefixes' % (16 if ctx.thorough else 8),
+        'worlds': wby, 'world_op_sequence_length': wdepth,
+        'worlds_nest2': 'all 81 ordered type pairs x inner penalty used before being wrapped %r (+ store(xa).iter() for a Lagrange '
+                        'inner type), (k,h) %r; operations on level 0 and on level 1' % ([[op_text(o) for o in p_] for p_ in PRE_INNER], KH_SKEW[:2]),
+        'worlds_nest3': '%s; (middle, innermost) used before being wrapped %r; operations on levels 0, 1, 2'
+                        % ('all 729 ordered type triples' if ctx.thorough else '162 type triples: every ordered pair as (outer, middle) and as (middle, inner)',
+                           [[[op_text(o) for o in q] for q in p_] for p_ in (PRE3 if ctx.thorough else PRE3[:2])]),
+        'worlds_combinators': 'coupler.and_/or_ of 1 member (9 types x settings %r x member fresh/iterated), of 2 members (81 ordered type '
+                              'pairs), of 3 members (81 triples), decorated by a further penalty (type pairs); coupler.not_ (9 types x settings %r); '
+                              'member (k,h) by position %r; operations on the combination, on the penalty decorating it, on every member'
+                              % (SETTINGS if ctx.thorough else SETTINGS[:5], NOT_SETTINGS if ctx.thorough else NOT_SETTINGS[:3], MEMBER_KH),
     }
     ctx.rule = ("for every configuration, every op sequence of the stated length over the 5 operations is executed on a freshly "
                 "built real penalty in lock step with the model, shortest first (traces = sequences run, transitions = operations executed; "
@@ -666,9 +1115,23 @@ def run(ctx):
                 "compared - every prefix is a sequence of its own, so every operation of every sequence is judged); at every distinct canonical closure "
                 "state of a configuration penalty(x) and error(x) are compared at every grid point and every nesting level "
                 "(evaluations). A (configuration, state) is non-trivial when n>0 or a store is non-empty at some level and the "
-                "penalty differs from the decorated function at one grid point or more")
+                "penalty differs from the decorated function at one grid point or more. Worlds: the same, over sequences of "
+                "operations addressed to any level of a nest / to a combination, the penalty decorating it and its members; after the "
+                "last operation of each sequence every level of every object is compared, and every object is evaluated at every grid "
+                "point once per distinct joint state")
     ctx.assumptions = [
-        "operations are issued on the outermost penalty only (as a solver does); inner levels are observed directly",
+        "configurations: operations are issued on the outermost penalty only (as a solver does), inner levels are observed directly; "
+        "worlds: operations are issued on any level / object",
+        "an operation issued on a penalty reaches that penalty and everything it decorates, nothing above it and no other object; "
+        "every level counts its own iterations: iter() adds one to each reached level from where it stands, iter(i) sets each to i",
+        "and_/or_/not_ build a penalty of their own (documented: ptype default linear_equality, k default 1, h default 5) with an "
+        "iteration state of its own; its condition is the sum / minimum of the members' current values (not_: the member's condition "
+        "inverted, the member's state is not consulted); iter()/clear()/store() on the combination do not reach the members. "
+        "Whether and_/or_ are zero exactly where all / any members are is C17's clause and is not judged here",
+        "store(x) without an index in a nest whose Lagrange levels stand at different iterations: the statement is silent on where "
+        "the inner sample belongs; a sequence is not judged (nor extended) from the operation on that makes "
+        "an outer Lagrange level hand its own index to an inner Lagrange level standing at another iteration (counted in the histogram "
+        "world_states); store(x, i) with an explicit index files under i at every level",
         "Lagrange types: the multiplier is the augmented-Lagrangian sum over completed iterations of the stored condition values "
         "(lam += 2 k h^i y_i; beta += 2 k h^i max(y_i, -beta/(2 k h^i))), a missing sample counts as 0",
         "barrier_inequality is judged against its documented log expression inside the feasible set (DESIGN section 5)",
@@ -683,7 +1146,11 @@ def run(ctx):
 
 
 def _dispatch(it):
-    return shard(it[1]) if it[0] == 'cfg' else shard_misc(it[1])
+    if it[0] == 'cfg':
+        return shard(it[1])
+    if it[0] == 'world':
+        return shard_world(it[1])
+    return shard_misc(it[1])
 
 
 def replay(case):
@@ -691,20 +1158,29 @@ def replay(case):
     if 'misc' in case:
         T = shard_misc((case['ta'], True))
         return [v['detail'] for v in T.violations.values()]
-    cfg, ops = case['cfg'], [list(o) for o in case['ops']]
-    cfg = {'mode': cfg['mode'], 'store': cfg['store'], 'levels': [list(l) for l in cfg['levels']]}
-    run = Run(cfg)
+    ops = [list(o) for o in case['ops']]
+    if 'world' in case:
+        w = case['world']
+    else:
+        cfg = case['cfg']
+        w = {'kind': 'nest', 'cfg': {'mode': cfg['mode'], 'store': cfg['store'], 'levels': [list(l) for l in cfg['levels']]}}
+    W = World(w)
     out, H = [], {}
-    check_attributes(run, out)
-    run.check_state([], out)
-    run.check_points([], out, H)
+    for r in W.runs:
+        if r.role != 'combination':
+            check_attributes(r, out)
+    W.check_state([], out)
+    W.check_points([], out, H)
     for i, op in enumerate(ops):
-        exc = run.apply(op)
+        exc = W.apply(op)
         if exc is not None:
-            out.append((run.sig('op_raised', 0), '%r raised %s' % (op, exc), {}))
+            o, l, b = op_parse(op)
+            out.append((W.runs[o].sig('op_raised', l), '%s raised %s' % (op_text(op, W.roles), exc), {}))
             break
-        run.check_state(ops[:i + 1], out)
-        run.check_points(ops[:i + 1], out, H)
+        if W.unjudged():
+            break
+        W.check_state(ops[:i + 1], out)
+        W.check_points(ops[:i + 1], out, H)
     seen, res = set(), []
     for sig, detail, extra in out:
         if 'x' in case and extra.get('x') is not None and extra.get('x') != case['x']:
